@@ -27,7 +27,7 @@ META = {
 }
 GEN: list = []
 TARGETS = ["Base/HttpBase", "Model/HttpSse", "Model/HttpDispatch", "Spec/C11", "Proofs/HttpSse", "Proofs/HttpDispatch",
-           "History/C11_prefix", "Props/C11"]
+           "Proofs/C11Spec", "History/C11_prefix", "Props/C11"]
 
 TRUSTED = [
     "Coq 8.16.1 kernel (coqc); coqchk re-check in the thorough tier",
@@ -538,11 +538,16 @@ def judge(ctx, sc, obs, drv_calls):
                 ctx.spec_total += 2
                 where = f"step {i} ({body_class(a)}" + (f" status {a['status']} content-type {a['ctype']}" if a["kind"] == "resp" else "") \
                         + f", request {rk})"
-                cz = "+".join(causes(st))
+                cs = causes(st)
+                cz = "+".join(cs)
                 if not deliv_ok:
                     invented = [t for t in srv if t not in intent]
                     what = "invented" if invented else ("lost" if len(srv) < len(intent) else "reordered")
-                    ctx.spec_violation(f"{what}:{cz}", case, f"{where}: body contains messages {intent}, delivered {delivered}")
+                    # which messages a body yields does not depend on what the messages are about: name the class after
+                    # the framing features only (for an invented message: after the non-message content)
+                    content_causes = ("nonmsg", "wrongid", "noresp", "id0", "202")
+                    dz = "nonmsg" if (invented and "nonmsg" in cs) else ("+".join(c for c in cs if c not in content_causes) or "plain")
+                    ctx.spec_violation(f"{what}:{dz}", case, f"{where}: body contains messages {intent}, delivered {delivered}")
                 if not term_ok:
                     syn = [m for m in delivered if m[0] == "Y"]
                     if rid is None:
@@ -730,8 +735,22 @@ def explore(ctx, drv):
     for i in range(0, len(socks), chunk):
         run_cases(ctx, socks[i:i + chunk], drv, sockets=True)
     refused_check(ctx)
-    ctx.exhaustive = True
+    ctx.exhaustive = False          # single answers are enumerated exhaustively, sequences of length 2-4 are sampled
+    ctx.extra["single_answers_exhaustive"] = True
     ctx.extra["socket_scenarios"] = len(socks)
+    import inspect
+    import chuk_mcp.transports.http.transport as T
+    src = inspect.getsource(T)
+    ctx.extra["tree_under_test"] = lib.REPO
+    ctx.extra["fixes_present_in_tree"] = {
+        "C11-1-sse-field-parsing": "_parse_sse_line" in src,
+        "C11-2-sse-default-event-type": 'current_event or "message"' in src,
+        "C11-3-array-body-members": "isinstance(response_data, list)" in src,
+        "C11-4-request-id-zero": "if message_id is None:" in src,
+        "C11-5-202-unparsable-body": "status_code == 202 and message_id is None" in src,
+        "C11-6-unanswered-request": "_unanswered_id" in src,
+        "C11-7-non-message-object": "Ignoring non JSON-RPC object" in src,
+    }
     ctx.extra["single_answers_enumerated"] = len(all_answers(thorough))
     ctx.extra["single_scenarios"] = len(singles)
     ctx.extra["sequence_scenarios"] = len(seqs)
